@@ -110,6 +110,11 @@ def run_case(case, ctx):
             ctx.check("leak", len(tr_) > 0 and len(te_) > 0 and int(tr_.max()) < int(te_.min()), "evaluate:fold-training-window-reaches-its-test-points",
                       "the splitter hands evaluate a fold whose training window contains a time point at or after the fold's first test point", fold=i_,
                       last_train=int(tr_.max()) if len(tr_) else None, first_test=int(te_.min()) if len(te_) else None, cv=case["cv"])
+            # ... and the test points of a fold are the requested steps after its cutoff, whatever container the horizon was given in
+            want_ = [int(tr_.max()) + h_ for h_ in case["cv"][1]["fh"]] if len(tr_) else None
+            ctx.check("rows", want_ is not None and [int(v) for v in te_] == want_, "evaluate:fold-test-points-not-the-requested-steps-after-the-cutoff",
+                      "the folds evaluate is given do not test the requested steps after each cutoff", fold=i_, got=[int(v) for v in te_][:8], expected=want_,
+                      horizon_container=type(case["cv"][1]["fh"]).__name__ if not isinstance(case["cv"][1]["fh"], list) else type(getattr(cv, "fh", None)).__name__)
         fspec = case["forecaster"]
         # ---- code under test ------------------------------------------------------------
         ok, res = ctx.call("evaluate:exception", evaluate, f, cv, y.copy(), None if X is None else X.copy(), strategy=case["strategy"],
@@ -189,6 +194,13 @@ def run_case(case, ctx):
                     ctx.check("leak", n_pred < len(splits) and ev["index"] == [int(v) for v in y.index[splits[n_pred][1]]],
                               "evaluate:predicted-time-points-not-the-test-points", "forecaster was asked for other time points than the fold's test points",
                               fold=n_pred, asked=ev["index"])
+                    if X is not None and n_pred < len(splits):
+                        # the exogenous rows handed over for the forecast: every time point after the fold's cutoff up to its last test point
+                        # (forecasters that step through the horizon need the rows in between as well), and nothing else
+                        c_lab, last_lab = int(y.index[splits[n_pred][0][-1]]), int(y.index[splits[n_pred][1][-1]])
+                        ctx.check("leak", ev.get("X_index") == list(range(c_lab + 1, last_lab + 1)), "evaluate:exogenous-rows-for-predict-not-cutoff+1-to-last-test-point",
+                                  "predict was not given the exogenous rows from the step after the cutoff up to the last test point", fold=n_pred,
+                                  got=(ev.get("X_index") or [])[:8], expected=list(range(c_lab + 1, last_lab + 1))[:8])
                     n_pred += 1
             ctx.check("leak", n_pred == len(splits), "evaluate:number-of-predictions", "number of predict calls differs from the number of folds",
                       predicts=n_pred, folds=len(splits))
